@@ -106,7 +106,7 @@ class _Crash(Exception):
     pass
 
 
-def install_injector(stack, kill_at, trace):
+def install_injector(stack, kill_at, trace, flush=True):
     """count the file-system effects on <stack>/ups_db; before effect number kill_at the process dies"""
     import builtins
     root = os.path.join(stack, "ups_db") + os.sep
@@ -168,8 +168,9 @@ def install_injector(stack, kill_at, trace):
         def write(self, s):
             effect("write", self._rel)
             r = self._f.write(s)
-            self._f.flush()
-            return r
+            if flush:
+                self._f.flush()       # every write reaches the disk at once: partial contents become visible
+            return r                  # (otherwise python buffers and a kill loses what was not yet closed)
 
         def close(self):
             effect("close", self._rel)
@@ -207,48 +208,90 @@ def run_history(work, history):
     return stack, userdata
 
 
-def crash_run(history, op, kill_at):
-    """child: state after history, then op killed before effect kill_at (None = run to completion).
-    The child that dies cannot report, so the run is done in a grandchild and observed from here."""
+def _killed_run(stack, userdata, op, kill_at, flush):
+    """run op in a grandchild that dies before effect kill_at (None: runs to completion); returns its report"""
+    r, w = os.pipe()
+    pid = os.fork()
+    if pid == 0:
+        os.close(r)
+        trace = []
+        try:
+            install_injector(stack, kill_at, trace, flush)
+            e = new_eups(stack, userdata, op["flavor"])
+            try:
+                do_op(e, stack, op)
+                outcome = "ok"
+            except BaseException as ex:  # noqa
+                outcome = "exc:" + type(ex).__name__
+            os.write(w, json.dumps({"trace": trace, "outcome": outcome}).encode())
+        finally:
+            os._exit(0)
+    os.close(w)
+    data = b""
+    while True:
+        b = os.read(r, 1 << 16)
+        if not b:
+            break
+        data += b
+    os.close(r)
+    os.waitpid(pid, 0)
+    return json.loads(data.decode()) if data else {"trace": None, "outcome": "killed"}
+
+
+def _observe(stack, userdata, info, before):
+    after = snapshot(stack)
+    r, w = os.pipe()
+    pid = os.fork()
+    if pid == 0:                         # a fresh reader: new process state, singletons empty
+        os.close(r)
+        try:
+            try:
+                out = {"view": read_view(stack, userdata), "reader": "ok"}
+            except BaseException as ex:  # noqa
+                out = {"view": None, "reader": "exc:%s:%s" % (type(ex).__name__, str(ex)[:200])}
+            os.write(w, json.dumps(out).encode())
+        finally:
+            os._exit(0)
+    os.close(w)
+    data = b""
+    while True:
+        b = os.read(r, 1 << 16)
+        if not b:
+            break
+        data += b
+    os.close(r)
+    os.waitpid(pid, 0)
+    out = json.loads(data.decode()) if data else {"view": None, "reader": "exc:reader died"}
+    out.update({"before": before, "after": after, "info": info})
+    return out
+
+
+def case_run(history, op, flush=True):
+    """child: the state after history is built once; the operation is then run to completion and, from a
+    restored copy of that state, killed before each of its effects.  Returns {"full": ..., "crashes": [...]}"""
     common.import_eups()
     work = common.scratch_dir("c08.")
     try:
         stack, userdata = run_history(work, history)
+        keep = os.path.join(work, "keep")
+        shutil.copytree(stack, os.path.join(keep, "stack"), symlinks=True)
+        shutil.copytree(userdata, os.path.join(keep, "user"), symlinks=True)
+
+        def restore():
+            shutil.rmtree(stack)
+            shutil.rmtree(userdata)
+            shutil.copytree(os.path.join(keep, "stack"), stack, symlinks=True)
+            shutil.copytree(os.path.join(keep, "user"), userdata, symlinks=True)
         before = snapshot(stack)
-        r, w = os.pipe()
-        pid = os.fork()
-        if pid == 0:
-            os.close(r)
-            trace = []
-            try:
-                install_injector(stack, kill_at, trace)
-                e = new_eups(stack, userdata, op["flavor"])
-                try:
-                    do_op(e, stack, op)
-                    outcome = "ok"
-                except BaseException as ex:  # noqa
-                    outcome = "exc:" + type(ex).__name__
-                os.write(w, json.dumps({"trace": trace, "outcome": outcome}).encode())
-            finally:
-                os._exit(0)
-        os.close(w)
-        data = b""
-        while True:
-            b = os.read(r, 1 << 16)
-            if not b:
-                break
-            data += b
-        os.close(r)
-        _, status = os.waitpid(pid, 0)
-        info = json.loads(data.decode()) if data else {"trace": None, "outcome": "killed"}
-        after = snapshot(stack)
-        # a fresh reader (new process state: singletons cleared, caches rebuilt)
-        try:
-            view = read_view(stack, userdata)
-            reader = "ok"
-        except BaseException as ex:  # noqa
-            view, reader = None, "exc:%s:%s" % (type(ex).__name__, str(ex)[:200])
-        return {"before": before, "after": after, "view": view, "reader": reader, "info": info}
+        oldview = _observe(stack, userdata, None, before)["view"]
+        restore()
+        full = _observe(stack, userdata, _killed_run(stack, userdata, op, None, flush), before)
+        n = len(full["info"]["trace"] or [])
+        crashes = []
+        for k in range(n + 1):
+            restore()
+            crashes.append(_observe(stack, userdata, _killed_run(stack, userdata, op, k, flush), before))
+        return {"full": full, "crashes": crashes, "oldview": oldview}
     finally:
         shutil.rmtree(work, ignore_errors=True)
 
@@ -267,6 +310,26 @@ def gen_op(rng):
     if r < 0.75:
         return {"op": "untag", "p": p, "v": rng.choice([v, None]), "flavor": fl, "tag": rng.choice(TAGS)}
     return {"op": "undeclare", "p": p, "v": v, "flavor": fl}
+
+
+def directed_cases():
+    """the situations the property names: version files holding several flavors, chain files being re-pointed"""
+    L, D = "Linux64", "Darwin"
+    dec = lambda fl, p, v, tag=None: {"op": "declare", "p": p, "v": v, "flavor": fl, "tag": tag}
+    two = [dec(L, "a", "1", "current"), dec(D, "a", "1", "current")]
+    out = [
+        ([dec(L, "a", "1")], dec(D, "a", "1")),                                   # second flavor joins a version file
+        (two, {"op": "undeclare", "p": "a", "v": "1", "flavor": L}),              # one of two flavors leaves it
+        (two, {"op": "undeclare", "p": "a", "v": "1", "flavor": D}),
+        (two + [dec(L, "a", "2")], {"op": "tag", "p": "a", "v": "2", "flavor": L, "tag": "current"}),   # re-point
+        (two + [dec(D, "a", "2")], {"op": "tag", "p": "a", "v": "2", "flavor": D, "tag": "current"}),
+        (two, {"op": "untag", "p": "a", "v": None, "flavor": L, "tag": "current"}),  # one of two entries leaves a chain
+        ([dec(L, "a", "1", "current")], {"op": "untag", "p": "a", "v": "1", "flavor": L, "tag": "current"}),
+        ([dec(L, "a", "1", "current")], {"op": "undeclare", "p": "a", "v": "1", "flavor": L}),  # last flavor, tagged
+        (two + [dec(L, "b", "1", "stable")], {"op": "tag", "p": "a", "v": "1", "flavor": L, "tag": "stable"}),
+        ([dec(L, "a", "1"), dec(L, "a", "2", "stable")], dec(D, "a", "2", "stable")),
+    ]
+    return [{"history": h, "op": op} for h, op in out]
 
 
 def gen_history(rng):
@@ -399,19 +462,19 @@ def corpus_cases():
     return out
 
 
-def explore(ctx, cases):
-    # 1. completed runs: traces and final states
-    full = common.par_map(crash_run, [(c["history"], c["op"], None) for c in cases])
-    jobs = []
-    for c, r in zip(cases, full):
+def explore(ctx, cases, flush=True):
+    runs = common.par_map(case_run, [(c["history"], c["op"], flush) for c in cases], timeout=900)
+    jobs, res = [], []
+    for c, r in zip(cases, runs):
         if r[0] != "ok":
-            raise RuntimeError("completed run failed: %r" % (r,))
+            raise RuntimeError("case run failed: %r" % (r,))
         r = r[1]
-        c["_full"] = r
-        trace = r["info"]["trace"] or []
-        for k in range(len(trace) + 1):
+        c["_full"] = r["full"]
+        if r["oldview"] is not None:
+            c["_oldview"] = r["oldview"]
+        for k, cr in enumerate(r["crashes"]):
             jobs.append((c, k))
-    res = common.par_map(crash_run, [(c["history"], c["op"], k) for c, k in jobs])
+            res.append(("ok", cr))
     lines, meta = [], []
     for (c, k), r in zip(jobs, res):
         if r[0] != "ok":
@@ -420,16 +483,16 @@ def explore(ctx, cases):
         full_r = c["_full"]
         old, new = full_r["before"], full_r["after"]
         trace = full_r["info"]["trace"] or []
-        shape = "%s/%s" % (c["op"]["op"], "effects=%d" % min(len(trace), 9))
+        shape = "%s/%s/%s" % (c["op"]["op"], "effects=%d" % min(len(trace), 9), "flushed" if flush else "buffered")
         nontrivial = len(trace) > 0 and old != new
-        ctx.count(1, key=shape, nontrivial=(json.dumps([c["history"], c["op"], k], sort_keys=True)
+        ctx.count(1, key=shape, nontrivial=(json.dumps([c["history"], c["op"], k, flush], sort_keys=True)
                                             if nontrivial else None))
         ctx.traces_validated += 1
         o = oracle(c, k, old, new, r, trace)
         if o is None and "_oldview" in c and full_r["view"] is not None:
             o = view_frame(c, c["_oldview"], full_r["view"], r)
         if o is not None:
-            ctx.fail(o[0], {"history": c["history"], "op": c["op"], "kill_before_effect": k},
+            ctx.fail(o[0], {"history": c["history"], "op": c["op"], "kill_before_effect": k, "flush": flush},
                      expected="old or new form of every record; reader succeeds", observed=o[1], what=o[1])
         # model comparison: completed main effects among the first k real effects
         effs, writes = effects_from(trace, new)
@@ -468,20 +531,17 @@ def run(ctx):
         "the record-level effect list fed to the model is reconstructed from the trace of the completed real run"]
     ctx.assumptions = ["POSIX atomicity of rename/unlink/mkdir/rmdir", "one writer at a time (C09 provides it)"]
     ctx.check_theorems()
-    cases = corpus_cases()
-    n = ctx.size(36, 400)
+    cases = corpus_cases() + directed_cases()
+    n = ctx.size(30, 400)
     for _ in range(n):
         h = gen_history(ctx.rng)
         cases.append({"history": h[:-1], "op": h[-1]})
-    # old views (fresh reader before the operation) for the frame oracle
-    olds = common.par_map(crash_run, [(c["history"], {"op": "untag", "p": "zz", "flavor": "Linux64", "tag": "current"}, None)
-                                      for c in cases])
-    for c, r in zip(cases, olds):
-        if r[0] == "ok" and r[1]["view"] is not None:
-            c["_oldview"] = r[1]["view"]
     for c in cases[:3]:
         ctx.sample({"history": c["history"], "op": c["op"]})
-    explore(ctx, cases)
+    explore(ctx, cases, flush=True)
+    # the same crash points with python's ordinary buffering: what was written but not yet closed is lost
+    nb = len(corpus_cases()) + len(directed_cases()) + ctx.size(6, 100)
+    explore(ctx, [dict(history=c["history"], op=c["op"], _oldview=c.get("_oldview")) for c in cases[:nb]], flush=False)
 
 
 def replay(ctx, path):
@@ -489,7 +549,7 @@ def replay(ctx, path):
     obj = json.load(open(path))
     i = obj["input"]
     c = {"history": i["history"], "op": i["op"]}
-    explore(ctx, [c])
+    explore(ctx, [c], flush=i.get("flush", True))
     bad = [f for f in ctx.failures if not ctx._known(f)] or ctx.disagreements
     print("replay %s: %s" % (path, "still fails" if bad else "passes"))
     return 1 if bad else 0
